@@ -54,6 +54,10 @@ def run(res):
     n, bad = lru_part(res)
     res.coverage["lru_mirror_scenarios"] = n
     res.coverage["lru_mirror_failures"] = bad
+    n, bad, acks = conc_part(res)
+    res.coverage["overlapping_scenarios"] = {"scenarios": n, "failures": bad, "acknowledged_operations": acks,
+                                             "rule": "2-4 clients overlap on 1-2 keys (Incr/Decr, Put, GetPut, Expire, Delete through every path; a Lock that "
+                                                     "waits while the holder renews its lease and lets it run out); all copies dumped at quiescence: mirror"}
 
 
 def lru_part(res):
@@ -85,9 +89,108 @@ def lru_part(res):
     return len(scs), bad
 
 
+CONC_CFG = {"members": 3, "replicas": 2, "partitions": 7, "table": 4096, "evict_workers": 1}
+
+
+def gen_conc(res):
+    """operations of several clients that overlap on the same keys; the copies are compared at quiescence. A write reaches the
+    backup in the order in which the owner applied it, whatever the order in which the operations were created: (a) a Lock that
+    waits while the holder renews its lease and lets it run out (the waiting Lock keeps the timestamp of its call),
+    (b) atomic operations, Puts and Expires queued behind each other on one key"""
+    import conclib  # noqa: F401
+    lpaths = [p for p in dmaplib.ALLPATHS if p != "pipe"]
+    scs = []
+    sid = 9000
+    for i in range(4 if res.tier == "quick" else 24):
+        rng = vlib.rng_for(res.seed, PID, "conc-lock", i)
+        d = "c04w%d" % sid
+        k = dmaplib.hx("waited")
+        scs.append({"id": sid, "_keys": [(d, k)], "clients": [
+            {"ops": [{"op": "lock", "c": rng.choice(lpaths), "d": d, "k": k, "ms": 600, "dl": 30, "tok": d + "-a"},
+                     {"op": "sleep", "ms": 120},
+                     {"op": "lease", "tok": d + "-a", "ms": 150}]},
+            {"ops": [{"op": "sleep", "ms": 40},
+                     {"op": "lock", "c": rng.choice(lpaths), "d": d, "k": k, "ms": 60000, "dl": 3000, "tok": d + "-b"}]}],
+            "final": [{"op": "dump", "d": d, "k": k}]})
+        sid += 1
+    for i in range(8 if res.tier == "quick" else 60):
+        rng = vlib.rng_for(res.seed, PID, "conc-mix", i)
+        d = "c04c%d" % sid
+        keys = [dmaplib.hx("k%d" % j) for j in range(rng.choice([1, 2]))]
+        clients = []
+        for c in range(rng.choice([2, 3, 4])):
+            ops = []
+            for _ in range(rng.randrange(4, 10)):
+                k = rng.choice(keys)
+                w = rng.random()
+                path = rng.choice(dmaplib.ALLPATHS)
+                if w < 0.35:
+                    ops.append({"op": rng.choice(["incr", "decr"]), "c": path, "d": d, "k": k, "delta": rng.randrange(1, 5)})
+                elif w < 0.6:
+                    op = {"op": "put", "c": path, "d": d, "k": k, "v": dmaplib.hx(str(rng.randrange(100)))}
+                    if rng.random() < 0.3:
+                        op["px"] = 60000
+                    ops.append(op)
+                elif w < 0.75:
+                    ops.append({"op": "getput", "c": rng.choice([p for p in dmaplib.ALLPATHS]), "d": d, "k": k, "v": dmaplib.hx(str(rng.randrange(100)))})
+                elif w < 0.9:
+                    ops.append({"op": "expire", "c": path, "d": d, "k": k, "ms": 60000})
+                else:
+                    ops.append({"op": "del", "c": path, "d": d, "k": k})
+            clients.append({"ops": ops})
+        scs.append({"id": sid, "_keys": [(d, k) for k in keys], "clients": clients,
+                    "final": [{"op": "dump", "d": d, "k": k} for k in keys]})
+        sid += 1
+    return scs
+
+
+def judge_conc(sc, r):
+    fin = r.get("final") or []
+    if len(fin) < len(sc["final"]):
+        return (0, "the scenario did not finish")
+    return dmaplib.check_mirror({"ops": sc["final"]}, fin, CONC_CFG["replicas"], CONC_CFG["members"])
+
+
+def conc_part(res):
+    import conclib
+    scs = gen_conc(res)
+    groups = [(CONC_CFG, scs[i::3]) for i in range(3)]
+    results = conclib.run_groups(groups)
+    bad = 0
+    acks = 0
+    for sc in scs:
+        r = results.get(sc["id"])
+        if r is None:
+            continue
+        acks += sum(1 for c in r.get("clients") or [] for ob in c if ob.get("r") == "ok")
+        v = judge_conc(sc, r)
+        if v:
+            bad += 1
+            if bad <= 3:
+                res.violation({"kind": "impl-violates-property", "cluster": CONC_CFG, "part": "conc",
+                               "scenario": {k_: v_ for k_, v_ in sc.items() if not k_.startswith("_")},
+                               "impl_trace": {"clients": r.get("clients"), "final": r.get("final")},
+                               "predicate": {"name": "mirror at quiescence after overlapping operations", "verdict": v[1]}, "seed": res.seed})
+    return len(scs), bad, acks
+
+
 def replay(res, path):
     import json
     obj = json.load(open(path))
+    if obj.get("part") == "conc":
+        import conclib
+        ok, out = vlib.harness_build()
+        if not ok:
+            raise vlib.CheckError(out)
+        sc = dict(obj["scenario"], id=0)
+        for attempt in range(5):
+            r = conclib.run_conc(obj["cluster"], [sc])[0]
+            v = judge_conc(sc, r)
+            if v:
+                print(v[1])
+                print("VIOLATION property=%s replay=%s" % (res.pid, path))
+                return 1
+        return 0
     if obj.get("part") == "lru":
         ok, out = vlib.harness_build()
         if not ok:
